@@ -3,6 +3,7 @@ package hermes
 import (
 	"fmt"
 	"log"
+	"math"
 	"path/filepath"
 	"strings"
 )
@@ -190,7 +191,12 @@ func (cropOW *CropOverwrite) isValidCropOverwrite(numPartitions, numStages int) 
 	if cropOW.CropFile == "" {
 		return false, nil
 	}
+	// NaN compares false with every bound and +/-Inf passes one-sided bounds: neither is inside any valid range
+	notFinite := func(value float64) bool { return math.IsNaN(value) || math.IsInf(value, 0) }
 	for key, value := range cropOW.BaseFloatParameters {
+		if notFinite(value) {
+			return false, fmt.Errorf("invalid value for %s: %f", key, value)
+		}
 		if key == "MAXAMAX" && (value <= 0 || value > 100) {
 			return false, fmt.Errorf("invalid value for MAXAMAX: %f", value)
 		} else if key == "MINTMP" && (value <= -30 || value >= 50) {
@@ -209,9 +215,12 @@ func (cropOW *CropOverwrite) isValidCropOverwrite(numPartitions, numStages int) 
 	}
 	for key, stages := range cropOW.DevelopmentStageParameters {
 		// check if stage is within valid range
-		for stage := range stages {
+		for stage, value := range stages {
 			if stage < 1 || stage > numStages {
 				return false, fmt.Errorf("invalid stage index: %d", stage)
+			}
+			if notFinite(value) {
+				return false, fmt.Errorf("invalid value for %s_%d: %f", key, stage, value)
 			}
 		}
 		if key == "TSUM" {
@@ -280,7 +289,10 @@ func (cropOW *CropOverwrite) isValidCropOverwrite(numPartitions, numStages int) 
 	}
 	for key, parts := range cropOW.PartitioningParameters {
 		// check if stage and partition are within valid range
-		for pair := range parts {
+		for pair, value := range parts {
+			if notFinite(value) {
+				return false, fmt.Errorf("invalid value for %s_%d_%d: %f", key, pair.Stage, pair.Part, value)
+			}
 			if pair.Stage < 1 || pair.Stage > numStages {
 				return false, fmt.Errorf("invalid stage for patitioning index: %d", pair.Stage)
 			}
